@@ -6,6 +6,34 @@ import os
 VERIF = os.path.dirname(os.path.dirname(os.path.abspath(__file__)))
 
 CLAIMED = {
+    "C14": dict(
+        category="other",
+        technique="CrossHair/z3 bounded symbolic execution: frame conditions of every kernel, lattice laws of every domain, the real worklist solvers under a solver-chosen permutation, detectors on contexts with symbolic content",
+        text="Narrow claim. State isolation: for all constants the kernels leave module-level universes / key lists / enum tuples unchanged and return fresh objects. Order independence: union/intersection of every domain are commutative, associative, idempotent, absorbing and monotone (unique fixpoint), and the real GroupIndices solvers give the same sets for every permutation of the initial worklists of a 4-block function. Read-only detectors: each of the nine detectors leaves contexts with symbolic content unchanged.",
+        note="hash-seed, set-iteration order across processes and byte-identical JSON are outside the technique (properties of interpreter runs) and are not claimed",
+        design_ref="DESIGN.md section 4 C14", engine="K",
+    ),
+    "C15": dict(
+        category="other",
+        technique="CrossHair/z3 bounded symbolic execution of the comparison kernels and of parse_line over constant spellings",
+        text="Narrow claim. For all uint64 constants int / pushint / intc / intc_i give identical kernel results for GroupSize, Fee and kind comparisons; named TypeEnum/OnCompletion constants equal their numbers; decimal/hex/octal spellings of 0..255 parse to the same constant.",
+        note="textual rewrites (labels, comments, padding, moving subroutines) relate two texts and would be differential testing: outside, stated in DESIGN.md",
+        design_ref="DESIGN.md section 4 C15", engine="K",
+    ),
+    "C16": dict(
+        category="other",
+        technique="CrossHair/z3 bounded symbolic execution of the real parse_line/_parse_int/first_pass on lines built from symbolic characters; finite dispatch/field/round-trip table enumerated against an independent AVM table",
+        text="Integers in decimal/hex/octal of bounded digit count denote the assembler's value; whitespace/comment variations do not change the instruction; hex and quoted byte literals are kept verbatim; unknown opcodes are kept as unsupported; line numbers are the 1-based source lines (symbolic numbers of blank/comment lines). Finite part: every opcode of TEAL v1-v8 (incl. all prefix pairs) parses to an instruction printing that opcode and round-trips; every field name maps to its class; base64/base32 examples.",
+        note="base64/base32 decoding and literals beyond the digit bounds are outside the symbolic claim",
+        design_ref="DESIGN.md section 4 C16", engine="K",
+    ),
+    "C17": dict(
+        category="other",
+        technique="CrossHair/z3 bounded symbolic execution of whole real analyses on one-block functions with symbolic immediates (tier W) and of the kind/index kernels for all constants",
+        text="Narrow claim: no internal error for any value of an immediate tealer interprets (comparison constants, gtxn indices, gtxns offsets, intc indices, dig/cover/popn depths, scratch slots); for GroupSize/GroupIndex/Fee constants the whole pipeline result is moreover exactly the implied set/bound for every constant.",
+        note="layout-dependent crashes, CLI, printers and files have no symbolic dimension and are outside; their graph-level causes are checked by C04/C05/C12 and every S/G worker reports tealer exceptions",
+        design_ref="DESIGN.md section 4 C17", engine="K",
+    ),
     "C11": dict(
         category="other",
         technique="CrossHair/z3 bounded symbolic execution of Stack.pop_n_values, construct_stack_ast (symbolic stack effects) and the immediates-dependent stack effects for all 0<=n<=255; finite opcode table vs independent AVM table",
@@ -113,7 +141,7 @@ CLAIMED = {
     ),
 }
 
-NOT_YET = {'C14': 'check under construction in this build round (see DESIGN.md section 9); not claimed yet', 'C15': 'check under construction in this build round (see DESIGN.md section 9); not claimed yet', 'C16': 'check under construction in this build round (see DESIGN.md section 9); not claimed yet', 'C17': 'check under construction in this build round (see DESIGN.md section 9); not claimed yet', 'C18': 'relates DOT/JSON text renderings to internal objects: no run-time input, constant or schedule for a solver to range over; int->str/re/file output are beyond CrossHair (measured); reading files back would be output testing, another technique'}
+NOT_YET = {'C18': 'relates DOT/JSON text renderings to internal objects: no run-time input, constant or schedule for a solver to range over; int->str/re/file output are beyond CrossHair (measured); reading files back would be output testing, another technique'}
 
 
 def main() -> None:
